@@ -624,6 +624,11 @@ func (g *fnGen) store(st *state, a *addr, val string, instr ssa.Instruction) {
 			g.guardObligation(st, a.prov, true, instr)
 		}
 		g.frameObligation(st, "field", a.ref, g.fieldArrayName(a.structT, a.field), instr)
+		if g.ct != nil && g.ct.Flags["readonly-receiver"] && len(g.fn.Params) > 0 && g.fn.Signature.Recv() != nil {
+			if _, isPtr := g.fn.Params[0].Type().Underlying().(*types.Pointer); isPtr {
+				g.oblige(st, "readonly", a.field.Name()+" <- "+g.anchor(instr.Pos(), "store"), instr.Pos(), "", Not(S("=", a.ref, g.vals[g.fn.Params[0]])), "evaluation does not write the receiver (an AST node is shared by every evaluation of it)")
+			}
+		}
 		if _, isStruct := a.typ.Underlying().(*types.Struct); isStruct {
 			g.storeAt(st, a.typ, a.ptr, val)
 			return
